@@ -148,6 +148,17 @@ def run(tier, seed):
         root_nodes[i] = node
     opts = {'seed': seed, 'ra': True, 'sample_rate': 0.03 if tier == 'quick' else 0.01, 'pairN': B['pairN']}
     pool = mp.Pool(NCPU, initializer=mapper._w_init, initargs=(None, roots, opts))
+    try:
+        return _run_with_pool(pool, tier, seed, B, prog, native, specs, roots, root_nodes, skipped, t_start)
+    finally:
+        pool.terminate()
+        try:
+            native.close()
+        except Exception:
+            pass
+
+
+def _run_with_pool(pool, tier, seed, B, prog, native, specs, roots, root_nodes, skipped, t_start):
     results = {}
     deadline = time.time() + B['explore_s']
     order = sorted(roots, key=lambda i: (len(roots[i][0].maps) > 6, roots[i][0].N, len(roots[i][0].maps)))
@@ -238,6 +249,7 @@ def run(tier, seed):
             'c06_stale_rest_states': po['rest_states'], 'c06_pair_states': po['pair_states'], 'c06_pair_fixpoints': po['fixpoints'],
             'c06_pair_cut': po['cut'], 'c06_paths': po['paths'], 'c06_transitions': po.get('transitions', 0),
             'layout': spec.describe() if len(spec.maps) <= 12 else spec.describe()[:6] + ['... %d mappings' % len(spec.maps)],
+            'error': res.error,
         })
     sample_out = []
     for i, s in all_samples[:6]:
@@ -321,6 +333,10 @@ def check(prop, tier, seed):
         oc.inconclusive.append('ENGINE-MISMATCH (symbolic violation not reproduced natively): ' + u)
     for m in d['mismatches']:
         oc.inconclusive.append('model/native disagreement: ' + m)
+    for l in d['layouts']:
+        if l.get('error'):
+            oc.inconclusive.append('unsupported construct while exploring %s: %s' % (l['name'], l['error']))
+            break
     applies = APPLIES.get(prop, lambda l: True)
     lays = [l for l in d['layouts'] if applies(l)]
     states = sum(l['states'] for l in lays)
